@@ -204,6 +204,15 @@ def observe(job):
         out["cases"].append(_case("s2n_evalf", False, lab, lab, int(c), ref, B, fparams))
     except Exception as ex:
         out["crashes"].append({"entry": "s2n_evalf", "exc": type(ex).__name__, "msg": str(ex)[:200], "diag": _diagnose(s, B, True)})
+    # (1c) string_to_node(check_ops=True): parses that use an operator outside the basis are discarded before the shortest is chosen
+    try:
+        with contextlib.redirect_stdout(sink):
+            _, nodes, c = g.string_to_node(s, B, check_ops=True)
+            lab = reading([str(l) for l in nodes.to_list(B)])
+        out["cases"].append(_case("s2n_ops", False, lab, lab, int(c), ref, B, fparams))
+    except Exception as ex:
+        # with check_ops the routine may legitimately find no parse inside the basis: not judged
+        pass
     # (2) fit_from_string: the relabelling, without and with replace_floats
     got = {}
     for rf in (False, True):
